@@ -170,6 +170,14 @@ def call_modset(V, fn, x, stack):
     m = V.externals.get('mod:' + key)
     if m is not None:
         return set(m(V))
+    if key in ('sort.Slice', 'sort.SliceStable'):
+        a = x['args'][0]
+        d = find_def(fn, a['name']) if a['k'] == 'reg' else None
+        if d is not None and d['op'] == 'MakeInterface':
+            return {('el', prog.under(d['x']['type'])[1]['elem'])}
+        raise OutOfSubset('modset of sort.Slice')
+    if key in ('sort.Strings', 'sort.Ints', 'sort.Float64s'):
+        return {('el', prog.under(x['args'][0]['type'])[1]['elem'])}
     if key in V.externals:
         return set()
     if key in prog.funcs and prog.funcs[key]['blocks']:
